@@ -70,6 +70,22 @@ TraceReset ==
     /\ poss' = AllNone
     /\ Count("resets")
 
+\* `resize(mb)` of the Hash option handler between two searches; the event carries the number of slots afterwards
+TraceResize ==
+    /\ IsEvent("resize")
+    /\ Resize(Rec[l].slots)
+    /\ poss' = IF Rec[l].slots = size THEN poss ELSE AllNone
+    /\ Count("resizes")
+
+\* a panic inside a search or inside resize: "keeps working for every advertised size and for any number of searches".
+\* The harness abandons the session; the next line starts a new table.
+TracePanic ==
+    /\ IsEvent("panic")
+    /\ Viol(FALSE, "crash-inside-a-session", [during |-> Rec[l].during, msg |-> Rec[l].msg, size |-> size, search |-> search])
+    /\ Crash([op |-> "panic"])
+    /\ UNCHANGED poss
+    /\ Count("panics")
+
 TraceNewSearch ==
     /\ IsEvent("newsearch")
     /\ NewSearch
@@ -101,11 +117,12 @@ TraceInsert ==
 TraceFill ==
     /\ IsEvent("fill")
     /\ LET e == Rec[l]
-       IN  /\ ViolAt(e.filled = Filled(slot) + e.untracked, "TRACE", l, "filled-slots-of-the-harness-and-of-the-model-differ",
+       IN  \* (after an adoption the model's table holds entries no recorded insert made: the bookkeeping is no longer comparable)
+           /\ ViolAt(acc.adopted > 0 \/ e.filled = Filled(slot) + e.untracked, "TRACE", l, "filled-slots-of-the-harness-and-of-the-model-differ",
                      [harness |-> e.filled, untracked |-> e.untracked, model |-> Filled(slot)])
-           /\ Viol(PermilleOK(e.pm, slot, e.untracked, N(size)), "fill-indicator-after-a-search",
+           /\ Viol(acc.adopted > 0 \/ PermilleOK(e.pm, slot, e.untracked, N(size)), "fill-indicator-after-a-search",
                    [permille |-> e.pm, filled |-> e.filled, slots |-> N(size)])
-           /\ Drift(e.occ = e.filled, "occupied-counter", [occupied |-> e.occ, filled |-> e.filled])
+           /\ Drift(acc.adopted > 0 \/ e.occ = e.filled, "occupied-counter", [occupied |-> e.occ, filled |-> e.filled])
     /\ UNCHANGED <<slot, search, occupied, size, bulk, st, ret, poss>>
     /\ Count("fills")
 
@@ -149,7 +166,7 @@ AdoptProbe ==
            /\ UNCHANGED <<search, occupied, size, bulk, st>>
            /\ Count2("probes", "adopted")
 
-Zero == [fills |-> 0, tables |-> 0, resets |-> 0, newsearches |-> 0, inserts |-> 0, forced |-> 0, forbidden |-> 0, free |-> 0,
+Zero == [fills |-> 0, panics |-> 0, resizes |-> 0, tables |-> 0, resets |-> 0, newsearches |-> 0, inserts |-> 0, forced |-> 0, forbidden |-> 0, free |-> 0,
          free_other_key |-> 0, probes |-> 0, hits |-> 0, hits_earlier_search |-> 0, misses_other_key |-> 0, adopted |-> 0]
 
 TraceInit ==
@@ -162,11 +179,12 @@ TraceFinish ==
     /\ Stat("tablecounts", acc)
     /\ UNCHANGED <<slot, search, occupied, size, bulk, st, ret, poss, acc>>
 
-TraceNext == TraceNew \/ TraceReset \/ TraceNewSearch \/ TraceInsert \/ TraceProbe \/ AdoptProbe \/ TraceFill \/ TraceFinish
+TraceNext == TraceNew \/ TraceReset \/ TraceNewSearch \/ TraceInsert \/ TraceProbe \/ AdoptProbe \/ TraceFill \/ TraceResize \/ TracePanic \/ TraceFinish
 TraceSpec == TraceInit /\ [][TraceNext]_tvars
 
 \* the CodeView invariants of TransTable hold along the trace (the model is TransTable's own)
-TraceInv == NoCrash /\ NoConfusion /\ AgeIsSearchMod /\ NoFutureEntry
+\* (a crash is reported by TracePanic, so NoCrash is not repeated here)
+TraceInv == NoConfusion /\ AgeIsSearchMod /\ NoFutureEntry
 
 ASSUME ViolAt(Hd.op = "pool" /\ NEv >= 2 /\ Rec[2].op = "new", "TRACE", 1, "malformed-trace", NEv)
 
